@@ -21,6 +21,11 @@ func runC02(c *Ctx) {
 	c.ruleEmit(a, "C02.emit")
 	c.ruleMerge(a)
 	c.ruleVerdict(a)
+	// "exactly one entry per registered pipeline when the context is not cancelled": the collector keeps
+	// receiving until the channel is closed or the context is done, and the channel is closed only after
+	// every traversal handed its entry in (the collector and wait-group obligations of C03)
+	c.ruleCollectorAs("C02.collector", a)
+	c.ruleWGAs("C02.collector", a)
 	c.ruleGetErrorTable()
 	c.ruleThresholds()
 }
@@ -103,6 +108,21 @@ func (c *Ctx) ruleEmit(a *protoAnchors, rule string) {
 			continue
 		}
 		if want == 0 {
+			// no hand-off is due only because the traversal goes on: at least one successor is started on
+			// this path. A path that ends without a hand-off AND without starting anything leaves its
+			// pipeline without an entry (completes + warnings < pipelines under a live context).
+			nGo := 0
+			for _, st := range pa.Steps {
+				if _, isGo := st.In.(*ssa.Go); isGo {
+					nGo++
+				}
+			}
+			// (a path that established len(next) != 0 and then shows the successor loop with zero iterations
+			// is an artefact of the enumeration: the loop runs at least once)
+			if nGo == 0 && !(noNext != nil && !*noNext) {
+				r.Bad(rule, "traverse:silent-end", p.InstrPos(pa.End), "the traversal ends on a path that neither hands a status in nor starts a successor: this pipeline is missing from Send's Status although the context is live ("+shortStr(p.PathSummary(pa), 240)+")")
+				continue
+			}
 			seenRow["children"] = true
 			continue
 		}
@@ -603,6 +623,7 @@ func runC03(c *Ctx) {
 	c.ruleSendHoldsNothing("C03.inventory")
 	c.rulePrivate(a)
 	c.ruleMakeSizes("C03.private")
+	c.rulePanicSites("C03.private")
 	// Send's first step is Broker.lock.RLock(), which does not look at the context: a broker call that
 	// invokes an extension point (Close, Reopen) with Broker.lock held lets a node that sends through the
 	// Broker wait for a lock its own caller holds — that Send never returns, and every later Send queues
